@@ -110,8 +110,9 @@ def run(tier, seed):
     chk.cov["states"] = g.distinct; chk.cov["transitions"] = max(g.generated, 1)
     gs = tlc.run("Outline", GEN % (8, 6, "TRUE"), workers=4, simulate=(60 if tier == "quick" else 800), depth=10, seed=seed, timeout=900)
     gt = tlc.run("Outline", (GEN % (0, 6, "FALSE")).replace("INIT Init", "INIT InitStairs"), workers=4, timeout=900)
+    gc = tlc.run("Outline", (GEN % (0, 6, "FALSE")).replace("INIT Init", "INIT InitCut"), workers=2, timeout=900)          # documents that end right after a title
     if gt.violated or len(gt.printed) < 12: raise FrameworkError("Outline(stairs): %s, %d documents" % (gt.violated, len(gt.printed)))
-    dl = uniq(g.printed + gs.printed + gt.printed, key=lambda d: d["src"])
+    dl = uniq(g.printed + gs.printed + gt.printed + gc.printed, key=lambda d: d["src"])
     exe = build.build_harness("asan")
     segs = []; per = 20
     for i in range(0, len(dl), per):
